@@ -2,7 +2,7 @@
   C19 — the REGENERATED model of `Triangle` (and of the iterators behind `points()`) equals the hand-written one.
 
   `EG/Generated/TriSrc.lean` is written by `tools/tr_trisrc.py` from /repo's Rust text on every run of a check
-  (src/primitives/triangle/{mod,scanline_iterator,points}.rs, src/primitives/polyline/{mod,points}.rs; one Lean `def`
+  (src/primitives/triangle/{mod,scanline_intersections,scanline_iterator,points}.rs, src/primitives/polyline/{mod,points}.rs; one Lean `def`
   per Rust function, arm for arm; every Rust primitive is a function of the trusted preludes
   `EG/Model/RectSrcPrelude.lean` / `EG/Model/TriSrcPrelude.lean`). This file proves, for every translated function of
   the triangle part, that the generated definition equals the hand-written model function of `EG/Model/Triangle.lean`
@@ -15,9 +15,13 @@
   * `from_slice` panics unless the slice has three elements; the theorem is about three-element slices.
   * `ScanlineIterator { rows: Range<i32>, .. }` is the hand model's record with the two ends of the range
     (`siOf`); a `&mut self` function returns (value, state after), the hand model's `next` too.
-  * `ScanlineIterator::new` takes a `StrokeOffset`; the code behind it (`ScanlineIntersections`, not regenerated: the
-    prelude binds it to the hand model) is modelled for `StrokeOffset::None`, which is what `Points::new` passes: the
-    theorem about `new` is stated for `.None`.
+  * `ScanlineIntersections` (`new`, `empty`, `reset_with_new_scanline`, `generate_lines`, `Iterator::next`) is
+    regenerated too; the hand model's record has no `stroke_offset` field (`sxOf`). What is NOT regenerated there is
+    the thick-stroke machinery: the iterator returned by `edge_intersections` (`LineJoin`, `ThickSegment`; the prelude
+    binds it to the hand model's `EdgeIt`, which yields `None` at once for stroke width 0, the case of `points()`)
+    and `Triangle::is_collapsed` (an unspecified `opaque` function of the prelude). `new` computes
+    `is_collapsed(..) && stroke_offset == Right`; the hand model covers `StrokeOffset::None`, where this is `false`
+    whatever `is_collapsed` returns: the theorems about `new` are stated for `.None`, the others for every state.
   * `triangle::Points::next` returns (`Option<Point>`, state after); the hand model's `PointsIt.next` returns
     `Option (point, state after)` (no state after `None`): `nextViewT`.
   Nothing needs a range guard here (`bounding_box().rows()` saturates in both; `contains`, which goes through
@@ -36,8 +40,9 @@ macro "tri_simp" "[" ls:Lean.Parser.Tactic.simpLemma,* "]" loc:(Lean.Parser.Tact
       Polyline_set_vertices, Point_eq, Point_ne, i32_cmp, option_and_then, option_map, option_unwrap_or_else,
       option_or_else, option_or_else_st, iter_chain, iter_any, rust_panic, Scanline_new_empty, Scanline_next,
       Scanline_bresenham_intersection, Line_new, Line_points, LinePoints_empty, LinePoints_next, LinePoints_into_iter,
-      ScanlineIntersections_new, ScanlineIntersections_empty, ScanlineIntersections_next,
-      ScanlineIntersections_reset_with_new_scanline, $ls,*] $[$loc]?)
+      option_unwrap_or, Scanline_mk, Scanline_x, Scanline_y, Scanline_set_x, Scanline_set_y, Scanline_try_take,
+      ScanlineIntersections_edge_intersections, EdgeIntersections_next, StrokeOffset_eq, StrokeOffset_ne,
+      $ls,*] $[$loc]?)
 
 /-! ### `Triangle`: constructors, area, sorting, bounding box -/
 
@@ -82,11 +87,91 @@ theorem Triangle_scanline_intersection_src_eq_model (t : Triangle) (y : Int) :
   · tri_simp [h, decide_true, ↓reduceIte]
   · tri_simp [h, decide_false, Bool.false_eq_true, ↓reduceIte]
 
+/-! ### `ScanlineIntersections` (src/primitives/triangle/scanline_intersections.rs) -/
+
+/-- The regenerated `LineConfig` as the hand model's record. -/
+def lcOf (l : TriSrc.LineConfigS) : EG.LineConfig := ⟨l.first, l.second, l.internal, l.internal_type⟩
+
+/-- The regenerated `ScanlineIntersections` as the hand model's record (which has no `stroke_offset` field: it covers
+`StrokeOffset::None`). -/
+def sxOf (s : TriSrc.ScanlineIntersectionsS) : EG.ScanlineIntersections :=
+  ⟨lcOf s.lines, s.triangle, s.stroke_width, s.has_fill, s.is_collapsed⟩
+
+theorem ScanlineIntersections_empty_src_eq_model :
+    sxOf TriSrc.ScanlineIntersections_empty = ScanlineIntersections.empty := rfl
+
+/-- `generate_lines` always returns `Some`, of the hand model's `LineConfig` (any stroke offset: the part that depends
+on it, `edge_intersections`, is the hand model's). -/
+theorem ScanlineIntersections_generate_lines_src_eq_model (s : TriSrc.ScanlineIntersectionsS) (y : Int) :
+    (TriSrc.ScanlineIntersections_generate_lines s y).map lcOf = some ((sxOf s).generateLines y) := by
+  unfold TriSrc.ScanlineIntersections_generate_lines ScanlineIntersections.generateLines
+  simp only [Triangle_scanline_intersection_src_eq_model]
+  cases hc : s.is_collapsed with
+  | true => tri_simp [sxOf, hc, ↓reduceIte, Option.map_some, lcOf]
+  | false =>
+    have hseg : ∀ (it : EG.ScanlineIntersections) (y : Int), it.seg y = fun idx => it.triangle.skeletonSeg idx y :=
+      fun _ _ => rfl
+    tri_simp [sxOf, hc, Bool.false_eq_true, ↓reduceIte, Option.map_some, lcOf, hseg]
+    generalize EdgeIt.next s.stroke_width (fun idx => s.triangle.skeletonSeg idx y) y
+      ⟨0, Scanline.newEmpty y, Scanline.newEmpty y⟩ = r1
+    generalize EdgeIt.next s.stroke_width (fun idx => s.triangle.skeletonSeg idx y) y r1.2 = r2
+    obtain ⟨a, r1'⟩ := r1
+    obtain ⟨b, r2'⟩ := r2
+    cases s.has_fill <;> cases a <;> cases b <;> rfl
+
+/-- `reset_with_new_scanline`. -/
+theorem ScanlineIntersections_reset_src_eq_model (s : TriSrc.ScanlineIntersectionsS) (y : Int) :
+    sxOf (TriSrc.ScanlineIntersections_reset_with_new_scanline s y).2 = (sxOf s).reset y := by
+  have h := ScanlineIntersections_generate_lines_src_eq_model s y
+  unfold TriSrc.ScanlineIntersections_reset_with_new_scanline ScanlineIntersections.reset
+  cases hg : TriSrc.ScanlineIntersections_generate_lines s y with
+  | none => rw [hg] at h; cases h
+  | some l =>
+    rw [hg] at h
+    simp only [Option.map_some, Option.some.injEq] at h
+    simp only [sxOf, h]
+
+/-- `ScanlineIntersections::new` for `StrokeOffset::None`: `is_collapsed(..) && stroke_offset == Right` is `false`
+whatever `is_collapsed` (not regenerated, unspecified) returns. -/
+theorem ScanlineIntersections_new_src_eq_model (t : Triangle) (w : Nat) (fill : Bool) (y : Int) :
+    sxOf (TriSrc.ScanlineIntersections_new t w .None fill y) = ScanlineIntersections.new t w fill y := by
+  unfold TriSrc.ScanlineIntersections_new ScanlineIntersections.new
+  simp only [ScanlineIntersections_reset_src_eq_model]
+  congr 1
+  tri_simp [sxOf, StrokeOffset_eq, TriSrc.ScanlineIntersections_empty, ScanlineIntersections.empty, lcOf,
+    Bool.and_false, reduceCtorEq, decide_false, TriSrc.Triangle_new, Point_zero_src_eq_model]
+
+/-- `try_take` that yields `None` leaves the scanline as it is. -/
+theorem tryTake_none_state (l : Scanline) (h : l.tryTake.1 = none) : l.tryTake.2 = l := by
+  unfold Scanline.tryTake at h ⊢
+  split
+  · rename_i hc; rw [if_pos hc] at h; cases h
+  · rfl
+
+/-- One call of the regenerated `Iterator::next` of `ScanlineIntersections` is one call of the hand model's. -/
+theorem ScanlineIntersections_next_src_eq_model (s : TriSrc.ScanlineIntersectionsS) :
+    ((TriSrc.ScanlineIntersections_Iterator_next s).1, sxOf (TriSrc.ScanlineIntersections_Iterator_next s).2) =
+      (sxOf s).next := by
+  unfold TriSrc.ScanlineIntersections_Iterator_next ScanlineIntersections.next
+  tri_simp [sxOf, lcOf]
+  cases h1 : s.lines.internal.tryTake.1 with
+  | some x => rfl
+  | none =>
+    simp only [tryTake_none_state _ h1]
+    cases h2 : s.lines.first.tryTake.1 with
+    | some x => rfl
+    | none =>
+      simp only [tryTake_none_state _ h2]
+      cases h3 : s.lines.second.tryTake.1 with
+      | some x => rfl
+      | none =>
+        simp only [tryTake_none_state _ h3]
+
 /-! ### `ScanlineIterator` -/
 
 /-- The regenerated iterator state (`rows: Range<i32>, scanline_y, intersections`) as the hand model's record. -/
 def siOf (s : TriSrc.ScanlineIteratorS) : EG.ScanlineIterator :=
-  ⟨s.rows.start, s.rows.end_, s.scanline_y, s.intersections⟩
+  ⟨s.rows.start, s.rows.end_, s.scanline_y, sxOf s.intersections⟩
 
 theorem ScanlineIterator_empty_src_eq_model : siOf TriSrc.ScanlineIterator_empty = ScanlineIterator.empty := rfl
 
@@ -96,7 +181,7 @@ theorem ScanlineIterator_new_src_eq_model (t : Triangle) (w : Nat) (fill : Bool)
   unfold TriSrc.ScanlineIterator_new ScanlineIterator.new
   rw [Triangle_sorted_clockwise_src_eq_model, rows_ends_src_eq_model]
   by_cases h : bb.tl.y < bb.rowsEnd
-  · tri_simp [h, ↓reduceIte, siOf]
+  · tri_simp [h, ↓reduceIte, siOf, ScanlineIntersections_new_src_eq_model]
   · tri_simp [h, ↓reduceIte, siOf]; rfl
 
 /-- One call of the regenerated `next` is one call of the hand model's: same item, same state after. -/
@@ -104,12 +189,20 @@ theorem ScanlineIterator_next_src_eq_model (s : TriSrc.ScanlineIteratorS) :
     ((TriSrc.ScanlineIterator_Iterator_next s).1, siOf (TriSrc.ScanlineIterator_Iterator_next s).2) =
       (siOf s).next := by
   unfold TriSrc.ScanlineIterator_Iterator_next ScanlineIterator.next
+  have hn := ScanlineIntersections_next_src_eq_model s.intersections
   tri_simp [siOf]
-  cases h : s.intersections.next.1 with
+  rw [← hn]
+  cases h : (TriSrc.ScanlineIntersections_Iterator_next s.intersections).1 with
   | some x => rfl
   | none =>
+    simp only []
     by_cases hr : s.rows.start < s.rows.end_
     · simp only [hr, ↓reduceIte]
+      have h2 := ScanlineIntersections_next_src_eq_model
+        (TriSrc.ScanlineIntersections_reset_with_new_scanline
+          (TriSrc.ScanlineIntersections_Iterator_next s.intersections).2 s.rows.start).2
+      rw [ScanlineIntersections_reset_src_eq_model] at h2
+      rw [← h2]
     · simp only [hr, ↓reduceIte]
 
 /-! ### `triangle::Points` -/
@@ -223,6 +316,7 @@ is outside the translation: an added function (an override of `Iterator::nth` or
 theorem tri_untranslated_pinned : TriSrc.untranslated =
     [("impl Dimensions for Polyline", ["bounding_box"]),
      ("impl Transform for Polyline", ["translate_mut"]),
+     ("impl ScanlineIntersections", ["edge_intersections"]),
      ("impl Triangle", ["is_collapsed", "joins"]),
      ("impl Transform for Triangle", ["translate", "translate_mut"])] := by decide
 
